@@ -459,3 +459,31 @@ EXPORT void SHIM(load_vector)(void* h, const void* test_case_bytes) {
 EXPORT int SHIM(vector_size)() {
     return (int)sizeof(TestCase);
 }
+
+// ---- pseudo-register words through RegisterState::Set<>/Get<> (order: st0 st1 st2 stt0 stt1 stt2 mod0 mod1 mod2 mod3
+//      cfgi cfgj ar0 ar1 arp0 arp1 arp2 arp3 icr) ---------------------------------------------------------------
+#define SHIM_WORDS(X)                                                                                                  \
+    X(0, st0) X(1, st1) X(2, st2) X(3, stt0) X(4, stt1) X(5, stt2) X(6, mod0) X(7, mod1) X(8, mod2) X(9, mod3)         \
+    X(10, cfgi) X(11, cfgj) X(12, ar0) X(13, ar1) X(14, arp0) X(15, arp1) X(16, arp2) X(17, arp3) X(18, icr)
+EXPORT void SHIM(pseudo_set)(void* h, int word, uint16_t value) {
+    RegisterState& regs = ((Core*)h)->regs;
+    switch (word) {
+#define X(i, T)                                                                                                        \
+    case i:                                                                                                            \
+        regs.Set<Teakra::T>(value);                                                                                    \
+        break;
+        SHIM_WORDS(X)
+#undef X
+    }
+}
+EXPORT uint16_t SHIM(pseudo_get)(void* h, int word) {
+    RegisterState& regs = ((Core*)h)->regs;
+    switch (word) {
+#define X(i, T)                                                                                                        \
+    case i:                                                                                                            \
+        return regs.Get<Teakra::T>();
+        SHIM_WORDS(X)
+#undef X
+    }
+    return 0;
+}
